@@ -136,36 +136,20 @@ void h_add_sat(void) {
 #undef X
   VF_REACH(); }
 
-/*@GROUP name=div_sat props=C14,C02 kind=F cost=5 @*/
-void h_div_sat(void) {
-#define X(T, W) VF_INPUT(T, x_##T); VF_INPUT(T, y_##T); __CPROVER_assume(y_##T != 0); VF_ASSERT(div_sat_##T(x_##T, y_##T) == (T)(x_##T / y_##T), "div_sat<" #T "> == x / y (unsigned)");
-  X(u8, 8) X(u16, 16)
-#undef X
-#define X(T, W) VF_INPUT(T, x_##T); VF_INPUT(T, y_##T); __CPROVER_assume(y_##T != 0); { T e; if (x_##T == (T)SMIN(W) && y_##T == -1) e = (T)SMAX(W); else e = (T)(x_##T / y_##T); \
-    VF_ASSERT(div_sat_##T(x_##T, y_##T) == e, "div_sat<" #T "> == x / y, MIN / -1 saturates to MAX"); }
-  X(i8, 8) X(i16, 16)
-#undef X
+/*@GROUP name=div_sat props=C14,C02 kind=F@*/
+void h_div_sat(void) {   /* 8-bit: every (x, y) pair */
+  VF_INPUT(u8, x); VF_INPUT(u8, y); __CPROVER_assume(y != 0); VF_ASSERT(div_sat_u8(x, y) == (u8)(x / y), "div_sat<u8> == x / y");
+  VF_INPUT(i8, a); VF_INPUT(i8, b); __CPROVER_assume(b != 0); VF_ASSERT(div_sat_i8(a, b) == (i8)((a == -128 && b == -1) ? 127 : a / b), "div_sat<i8> == x / y, MIN / -1 saturates to MAX");
   VF_REACH(); }
 
-/*@GROUP name=div_sat32 props=C14,C02 kind=F cost=5 timeout=600@*/
-void h_div_sat32(void) {
-#define X(T, W) VF_INPUT(T, x_##T); VF_INPUT(T, y_##T); __CPROVER_assume(y_##T != 0); VF_ASSERT(div_sat_##T(x_##T, y_##T) == (T)(x_##T / y_##T), "div_sat<" #T "> == x / y (unsigned)");
-  X(u32, 32)
+/*@GROUP name=div_sat_w props=C14,C02 kind=B bound=|divisor|<=16-or-MIN/-1 cost=3 tier=thorough solver=kissat timeout=1500@*/
+void h_div_sat_w(void) {  /* wider types: a second symbolic divider of the same width is SAT-hard, so the divisor is windowed; MIN / -1 is inside the window */
+#define X(T, W) VF_INPUT(T, x_##T); VF_INPUT(T, y_##T); __CPROVER_assume(y_##T != 0 && y_##T <= 16); VF_ASSERT(div_sat_##T(x_##T, y_##T) == (T)(x_##T / y_##T), "div_sat<" #T "> == x / y (unsigned, divisor <= 16)");
+  X(u16, 16) X(u32, 32) X(u64, 64)
 #undef X
-#define X(T, W) VF_INPUT(T, x_##T); VF_INPUT(T, y_##T); __CPROVER_assume(y_##T != 0); { T e; if (x_##T == (T)SMIN(W) && y_##T == -1) e = (T)SMAX(W); else e = (T)(x_##T / y_##T); \
-    VF_ASSERT(div_sat_##T(x_##T, y_##T) == e, "div_sat<" #T "> == x / y, MIN / -1 saturates to MAX"); }
-  X(i32, 32)
-#undef X
-  VF_REACH(); }
-
-/*@GROUP name=div_sat64 props=C14,C02 kind=F cost=5 tier=thorough timeout=3000@*/
-void h_div_sat64(void) {
-#define X(T, W) VF_INPUT(T, x_##T); VF_INPUT(T, y_##T); __CPROVER_assume(y_##T != 0); VF_ASSERT(div_sat_##T(x_##T, y_##T) == (T)(x_##T / y_##T), "div_sat<" #T "> == x / y (unsigned)");
-  X(u64, 64)
-#undef X
-#define X(T, W) VF_INPUT(T, x_##T); VF_INPUT(T, y_##T); __CPROVER_assume(y_##T != 0); { T e; if (x_##T == (T)SMIN(W) && y_##T == -1) e = (T)SMAX(W); else e = (T)(x_##T / y_##T); \
-    VF_ASSERT(div_sat_##T(x_##T, y_##T) == e, "div_sat<" #T "> == x / y, MIN / -1 saturates to MAX"); }
-  X(i64, 64)
+#define X(T, W) VF_INPUT(T, x_##T); VF_INPUT(T, y_##T); __CPROVER_assume(y_##T != 0 && y_##T >= -16 && y_##T <= 16); { T e; if (x_##T == (T)SMIN(W) && y_##T == -1) e = (T)SMAX(W); else e = (T)(x_##T / y_##T); \
+    VF_ASSERT(div_sat_##T(x_##T, y_##T) == e, "div_sat<" #T "> == x / y, MIN / -1 saturates to MAX (|divisor| <= 16)"); }
+  X(i16, 16) X(i32, 32) X(i64, 64)
 #undef X
   VF_REACH(); }
 
@@ -196,39 +180,21 @@ void h_abs(void) {
   VF_INPUT(long long, c); __CPROVER_assume(c != (long long)SMIN(64)); VF_ASSERT(abs_llong(c) == (c < 0 ? -c : c), "abs(long long)");
   VF_REACH(); }
 
-/*@GROUP name=idiv props=C14,C02 kind=F cost=5 @*/
-void h_idiv(void) {
-#define X(T, W) VF_INPUT(T, x_##T); VF_INPUT(T, y_##T); __CPROVER_assume(y_##T != 0); { T q, r; idiv_##T(x_##T, y_##T, &q, &r); \
-    VF_ASSERT(q == (T)(x_##T / y_##T) && r == (T)(x_##T % y_##T), "idiv<" #T "> == {x / y, x % y}"); }
-  X(u8, 8) X(u16, 16)
-#undef X
-#define X(T, W) VF_INPUT(T, x_##T); VF_INPUT(T, y_##T); __CPROVER_assume(y_##T != 0 && !(x_##T == (T)SMIN(W) && y_##T == -1)); { T q, r; idiv_##T(x_##T, y_##T, &q, &r); \
-    VF_ASSERT(q == (T)(x_##T / y_##T) && r == (T)(x_##T % y_##T), "idiv<" #T "> == {x / y, x % y} (C semantics: truncation, remainder has the sign of x)"); }
-  X(i8, 8) X(i16, 16)
-#undef X
+/*@GROUP name=idiv props=C14,C02 kind=F@*/
+void h_idiv(void) {   /* 8-bit: every (x, y) pair */
+  VF_INPUT(u8, x); VF_INPUT(u8, y); __CPROVER_assume(y != 0); { u8 q, r; idiv_u8(x, y, &q, &r); VF_ASSERT(q == (u8)(x / y) && r == (u8)(x % y), "idiv<u8> == {x / y, x % y}"); }
+  VF_INPUT(i8, a); VF_INPUT(i8, b); __CPROVER_assume(b != 0 && !(a == -128 && b == -1)); { i8 q, r; idiv_i8(a, b, &q, &r); VF_ASSERT(q == (i8)(a / b) && r == (i8)(a % b), "idiv<i8> == {x / y, x % y} (truncation, remainder has the sign of x)"); }
   VF_REACH(); }
 
-/*@GROUP name=idiv32 props=C14,C02 kind=F cost=5 timeout=600@*/
-void h_idiv32(void) {
-#define X(T, W) VF_INPUT(T, x_##T); VF_INPUT(T, y_##T); __CPROVER_assume(y_##T != 0); { T q, r; idiv_##T(x_##T, y_##T, &q, &r); \
-    VF_ASSERT(q == (T)(x_##T / y_##T) && r == (T)(x_##T % y_##T), "idiv<" #T "> == {x / y, x % y}"); }
-  X(u32, 32)
+/*@GROUP name=idiv_w props=C14,C02 kind=B bound=|divisor|<=16 cost=3 tier=thorough solver=kissat timeout=1500@*/
+void h_idiv_w(void) {
+#define X(T, W) VF_INPUT(T, x_##T); VF_INPUT(T, y_##T); __CPROVER_assume(y_##T != 0 && y_##T <= 16); { T q, r; idiv_##T(x_##T, y_##T, &q, &r); \
+    VF_ASSERT(q == (T)(x_##T / y_##T) && r == (T)(x_##T % y_##T), "idiv<" #T "> == {x / y, x % y} (divisor <= 16)"); }
+  X(u16, 16) X(u32, 32) X(u64, 64)
 #undef X
-#define X(T, W) VF_INPUT(T, x_##T); VF_INPUT(T, y_##T); __CPROVER_assume(y_##T != 0 && !(x_##T == (T)SMIN(W) && y_##T == -1)); { T q, r; idiv_##T(x_##T, y_##T, &q, &r); \
-    VF_ASSERT(q == (T)(x_##T / y_##T) && r == (T)(x_##T % y_##T), "idiv<" #T "> == {x / y, x % y} (C semantics: truncation, remainder has the sign of x)"); }
-  X(i32, 32)
-#undef X
-  VF_REACH(); }
-
-/*@GROUP name=idiv64 props=C14,C02 kind=F cost=5 tier=thorough timeout=3000@*/
-void h_idiv64(void) {
-#define X(T, W) VF_INPUT(T, x_##T); VF_INPUT(T, y_##T); __CPROVER_assume(y_##T != 0); { T q, r; idiv_##T(x_##T, y_##T, &q, &r); \
-    VF_ASSERT(q == (T)(x_##T / y_##T) && r == (T)(x_##T % y_##T), "idiv<" #T "> == {x / y, x % y}"); }
-  X(u64, 64)
-#undef X
-#define X(T, W) VF_INPUT(T, x_##T); VF_INPUT(T, y_##T); __CPROVER_assume(y_##T != 0 && !(x_##T == (T)SMIN(W) && y_##T == -1)); { T q, r; idiv_##T(x_##T, y_##T, &q, &r); \
-    VF_ASSERT(q == (T)(x_##T / y_##T) && r == (T)(x_##T % y_##T), "idiv<" #T "> == {x / y, x % y} (C semantics: truncation, remainder has the sign of x)"); }
-  X(i64, 64)
+#define X(T, W) VF_INPUT(T, x_##T); VF_INPUT(T, y_##T); __CPROVER_assume(y_##T != 0 && y_##T >= -16 && y_##T <= 16 && !(x_##T == (T)SMIN(W) && y_##T == -1)); { T q, r; idiv_##T(x_##T, y_##T, &q, &r); \
+    VF_ASSERT(q == (T)(x_##T / y_##T) && r == (T)(x_##T % y_##T), "idiv<" #T "> == {x / y, x % y} (|divisor| <= 16)"); }
+  X(i16, 16) X(i32, 32) X(i64, 64)
 #undef X
   VF_REACH(); }
 
